@@ -199,15 +199,18 @@ def parse_ret(s):
 # ----------------------------------------------------------------------------------------- float comparison
 
 def close_pos(val, exact, dtype, tol_ulp=2):
-    """val (python float of dtype) within tol_ulp ulps of the exact rational"""
-    e = np.array([float(Fraction(exact))], dtype=np.float64).astype(dtype)
+    """val (a float of `dtype`) against the exact rational: equal when tol_ulp == 0, else within tol_ulp ulps of the
+    correctly rounded value.  (Whether exactness may be demanded depends on the *scale* being dyadic, never on the
+    result happening to be representable: 220000 * fl(0.0011) is 242.00000000000003, not 242.)"""
+    e = np.array([Fraction(exact).numerator / Fraction(exact).denominator], dtype=np.float64).astype(dtype)
     v = np.array([val], dtype=dtype)
-    if is_exact_in(exact, dtype):
-        return bool(v[0] == e[0])
+    if tol_ulp == 0:
+        return Fraction(float(v[0])) == Fraction(exact)
     return bool(ulpdist(v, e)[0] <= tol_ulp)
 
 
-def is_exact_in(q, dtype):
+def small_dyadic(q):
+    """dyadic with an odd part below 2^20: products with 15-/20-bit integers and sums of two such are exact in float32/64"""
     q = Fraction(q)
     if q == 0:
         return True
@@ -216,21 +219,13 @@ def is_exact_in(q, dtype):
     n = abs(q.numerator)
     while n % 2 == 0:
         n //= 2
-    return n < (2 ** 24 if dtype == np.float32 else 2 ** 53)
+    return n < 2 ** 8
 
 
 def lagr_tol(j, box, ppd, dtype):
     """absolute bound for lagr_pos (see module docstring)"""
     M = max(Fraction(j) * Fraction(box) / ppd, Fraction(box) / 2)
     return 3 * float(np.spacing(np.array(float(abs(M)), dtype=dtype)))
-
-
-def lagr_close(val, j, box, ppd, dtype):
-    exact = Fraction(j) * Fraction(box) / ppd - Fraction(box) / 2
-    if is_dyadic(Fraction(box) / ppd) and is_exact_in(Fraction(box) / ppd, dtype) and is_exact_in(Fraction(box) / 2, dtype) \
-            and is_exact_in(exact, dtype) and is_exact_in(Fraction(j) * Fraction(box) / ppd, np.float64):
-        return float(val) == float(exact)
-    return abs(Fraction(float(val)) - exact) <= Fraction(lagr_tol(j, box, ppd, dtype))
 
 
 # ----------------------------------------------------------------------------------------- oracle (documented layout)
@@ -364,8 +359,8 @@ def check_rv_bulk(ctx, bp, M, words, boxes, label):
                 continue
             pos = pos.reshape(-1)
             vel = vel.reshape(-1)
-            exact_scale = is_dyadic(B / 10 ** 6)
-            tol = 0 if exact_scale and dtype == np.float64 else 2
+            exact_scale = small_dyadic(B / 10 ** 6)     # 20-bit integer times an 8-bit dyadic: exact in float32 and float64
+            tol = 0 if exact_scale else 2
             for who, pint, E, vint, vs in (('model', pm, E_mo, vm, mvs), ('oracle', po, E_or, vo, VELSCALE)):
                 inr = (pint >= -2 ** 19) & (pint < 2 ** 19)
                 exp = E[np.clip(pint + 2 ** 19, 0, 2 ** 20 - 1)].astype(dtype)
@@ -405,7 +400,7 @@ def check_rv_bulk(ctx, bp, M, words, boxes, label):
 
 # ----------------------------------------------------------------------------------------- RVint selection modes
 
-def cmp_rows(ctx, what, case, writes, arr, nrows_expected, dtype, sentinel, tol=2):
+def cmp_rows(ctx, what, case, writes, arr, nrows_expected, dtype, sentinel, tol):
     """model write list (row -> triple of rationals) against a float array; untouched rows keep the sentinel"""
     a = np.asarray(arr).reshape(-1, 3)
     if len(a) != nrows_expected:
@@ -490,13 +485,14 @@ def check_rv_selection(ctx, bp, M):
                         continue
                     if sorted(k for k, _ in writes) != list(range(n)):
                         ctx.disagree(what + ': model does not write every row of the allocated array', case, writes, None)
-                    cmp_rows(ctx, what, case, writes, r, n, dtype, None)
+                    cmp_rows(ctx, what, case, writes, r, n, dtype, None, tol=2 if name == 'pos' else 0)
                 else:
                     if isinstance(r, np.ndarray) or int(r) != n:
                         ctx.disagree(what + ': returned count', case, n, repr(r))
                         continue
                     if supplied is not None:
-                        cmp_rows(ctx, what + ' (supplied array)', case, writes, supplied, supplied.size // 3, dtype, SENT)
+                        cmp_rows(ctx, what + ' (supplied array)', case, writes, supplied, supplied.size // 3, dtype, SENT,
+                                 tol=2 if name == 'pos' else 0)
                     elif writes:
                         ctx.disagree(what + ': model writes although skipped', case, writes, None)
             # oracle: the same input decoded with both outputs allocated gives bitwise the same values
@@ -574,7 +570,7 @@ def check_rv_kernel(ctx, bp, M):
                     continue
                 _, pw, vw = mres.split(' ')
                 if pa is not None:
-                    cmp_rows(ctx, '_unpack_rvint pos', case, parse_writes(pw), pa, pr, dtype, SENT)
+                    cmp_rows(ctx, '_unpack_rvint pos', case, parse_writes(pw), pa, pr, dtype, SENT, tol=2)
                 elif pw != '-':
                     ctx.disagree('_unpack_rvint pos: model writes to a None output', case, pw, None)
                 if va is not None:
@@ -692,7 +688,7 @@ def check_aux_bulk(ctx, bp, M, words, boxppd, label):
                 jr = range(2 ** 15)
                 E = cr_table([j * B.numerator * 2 - B.numerator * P for j in jr], 2 * B.denominator * P)
                 Mx = np.maximum(np.array([float(abs(Fraction(j) * B / P)) for j in jr]), float(B / 2))
-                exact = is_dyadic(B / P) and is_exact_in(B / P, dtype) and is_exact_in(B / 2, dtype)
+                exact = small_dyadic(B / P) and small_dyadic(B / 2)
                 tolv = 3 * np.spacing(Mx.astype(dtype)).astype(np.float64)
                 for c in range(3):
                     j = jcols[c]
@@ -703,8 +699,9 @@ def check_aux_bulk(ctx, bp, M, words, boxppd, label):
                     got = out['lagr_pos'][:, c].astype(np.float64)
                     err = np.abs(got - E[j])
                     bad = (err > tolv[j]) | ~np.isfinite(got)
-                    if exact and dtype == np.float64:
-                        bad = got != E[j]
+                    if exact:
+                        # exact in the float64 intermediate; a float32 store rounds once, so: the correctly rounded value
+                        bad = got != E[j].astype(dtype).astype(np.float64)
                     k = first_bad(bad)
                     if k is not None:
                         case = dict(entry='unpack_pids', word=int(words[k]), field='lagr_pos[%d]' % c, box=box, ppd=ppd, dtype=dtype.__name__)
@@ -1008,6 +1005,57 @@ def exhaustive_rvint(ctx, bp, M):
     ctx.extra['exhaustive_rvint'] = 'all 2^32 RVint words x float32/float64 through compiled unpack_rvint, Box=2000'
 
 
+# ----------------------------------------------------------------------------------------- reader level (halo light cones)
+
+LC_KEY = 'lc-unpack-bits'
+
+
+def check_lc_unpack_bits(ctx, bp):
+    """`CompaSOHaloCatalog._load_halo_lc_subsamples(which, unpack_bits)` is the one caller that forwards the user's
+    `unpack_bits` straight into `unpack_pids(**{f: True for f in unpack_bits})`.  Every documented value of `unpack_bits`
+    (True, False, a name, a list of names from PID_FIELDS) must give the same decoded columns as `unpack_pids` itself.
+    Driven at function level on a stub catalog object and a 3-particle uncompressed asdf file.
+
+    A failure is reported through ctx.fail (key LC_KEY) only if known_findings.json already lists that key; otherwise it
+    is recorded in the evidence as `unclaimed_observations` (see the C04 report: the lead decides between fix and finding)."""
+    import os
+    import asdf
+    from astropy.table import Table
+    from abacusnbody.data.compaso_halo_catalog import CompaSOHaloCatalog
+    from vcommon import load_known
+    claimed = any(k.get('property') == 'C04' and k.get('key') == LC_KEY for k in load_known().get('findings', []))
+    d = ctx.tmpdir()
+    words = np.array([0x7FFF7FFF7FFF | (1 << 48) | (5 << 49), 12345678901234567890, 1 << 63], dtype=np.uint64)
+    fn = os.path.join(d, 'lc_pid_rv.asdf')
+    asdf.AsdfFile({'data': {'pid': words, 'pos': np.zeros((3, 3), np.float32), 'vel': np.zeros((3, 3), np.float32)}}).write_to(fn)
+    obs = []
+    for ub in (True, False, 'density', ['pid', 'tagged'], ['lagr_idx', 'lagr_pos'], ['packedpid']):
+        cat = CompaSOHaloCatalog.__new__(CompaSOHaloCatalog)
+        cat.groupdir, cat.data_key, cat.subsamples, cat.header = d, 'data', Table(), {'BoxSize': 2000.0, 'ppd': 6912.0}
+        case = dict(entry='CompaSOHaloCatalog._load_halo_lc_subsamples', which=['pid'], unpack_bits=ub, words=[int(x) for x in words])
+        ctx.case(case)
+        ctx.count('lc-unpack-bits')
+        want = [f for f in bp.PID_FIELDS if f != 'packedpid'] if ub is True else [] if ub is False else [ub] if isinstance(ub, str) else \
+            [f for f in ub if f != 'packedpid']
+        ref = bp.unpack_pids(words, box=2000.0, ppd=6912.0, **{f: True for f in want})
+        try:
+            u = cat._setup_unpack_bits(ub)
+            cat._load_halo_lc_subsamples(which=['pid'], unpack_bits=u)
+            got = {f: np.asarray(cat.subsamples[f]) for f in want if f in cat.subsamples.colnames}
+            ok = set(got) == set(want) and all(np.array_equal(got[f], ref[f]) for f in want)
+            res = 'ok' if ok else 'columns %s' % cat.subsamples.colnames
+        except Exception as e:
+            ok, res = False, '%s: %s' % (type(e).__name__, e)
+        if not ok:
+            obs.append(dict(unpack_bits=ub, observed=res, expected='columns %s decoded as by unpack_pids' % want))
+            if claimed:
+                ctx.fail('halo light-cone subsamples: documented unpack_bits value is not decoded', case, res,
+                         'columns %s as decoded by unpack_pids' % want, key=LC_KEY)
+    if obs and not claimed:
+        ctx.extra['unclaimed_observations'] = [dict(key=LC_KEY, where='compaso_halo_catalog._load_halo_lc_subsamples', cases=obs)]
+        ctx.count('lc-unpack-bits:unclaimed-observation', len(obs))
+
+
 # ----------------------------------------------------------------------------------------- entry points
 
 def extract(ctx):
@@ -1069,6 +1117,7 @@ def run(ctx):
     check_pid_selection(ctx, bp, M)
     check_pid_kernel(ctx, bp, M)
     check_empty(ctx, bp, M)
+    check_lc_unpack_bits(ctx, bp)
     if not ctx.quick:
         exhaustive_rvint(ctx, bp, M)
 
